@@ -8,6 +8,7 @@ CONSTANTS
  MaxFaults = 4
  MaxSeeks = 0
  Conc = 2
+ StoreAnchor = TRUE
  RelNR = FALSE
  FixLeak = TRUE
  PrioAsc = TRUE
